@@ -51,6 +51,12 @@ ASSUMPTIONS = ['IEEE overflow is outside the property: non-finite output of the 
                'about the modelled formulas']
 
 TOL_REL = 1e-9
+EXPECTED_BRANCHES = (['steps/{}/{}'.format(f, n) for f in ('list', 'tuple', 'array')
+                      for n in ('sep', 'lscale', 'rscale', 'trans', 'lscale-int', 'lscale-np')] +
+                     ['steps/elements/sep', 'steps/elements/lscale', 'steps/elements/rscale',
+                      'steps/elements/trans', 'sigma/float', 'sigma/pointwise',
+                      'model/comp', 'model/err:ValueError', 'model/err:TypeError',
+                      'model/unsupported', 'functional/bregman', 'functional/rscale0'])
 MODEL_TOKENS = {'l1', 'l1l2', 'l2', 'l2sq', 'ccl1', 'ccl1l2', 'ccl2sq', 'box', 'const', 'izero', 'linf',
                 'cclinf', 'simplex', 'sumc', 'huber', 'huberg', 'klcc', 'trans', 'argscale', 'lscale', 'quad',
                 'conj', 'sep', 'nil', 'comp'}
@@ -162,7 +168,8 @@ def weights(key):
 class Case(object):
     def __init__(self, label, skey, factory, feval, tree, indicator=False, vec_sigma=False,
                  list_sigma=0, moreau=None, exact=None, leaves=(), fobj=None, restricted=False,
-                 has_box=False):
+                 has_box=False, elem_sigma=False):
+        self.elem_sigma = elem_sigma    # per-summand point-wise step elements accepted
         self.has_box = has_box          # evaluation composed in the harness from the leaf's own eval
         self.restricted = restricted    # effective domain smaller than the space (not indicator)
         self.label, self.skey, self.space = label, skey, zoo()[skey]
@@ -443,7 +450,8 @@ def build(spec):
         fe = (lambda z: sub.feval(z - ye)) if sub.has_box else fn(f)
         return Case('trans[' + sub.label + ']', sub.skey, lambda sg: f.proximal(sg), fe, tree,
                     indicator=sub.indicator, restricted=sub.restricted, exact=sub.exact,
-                    has_box=sub.has_box, leaves=sub.leaves + ('trans',), fobj=f)
+                    has_box=sub.has_box, list_sigma=sub.list_sigma, elem_sigma=sub.elem_sigma,
+                    leaves=sub.leaves + ('trans',), fobj=f)
     if kind == 'rscale':
         s, sub = spec[1], build(spec[2])
         f = sub.fobj * s
@@ -456,7 +464,8 @@ def build(spec):
             ex = lambda sg: np.isscalar(sg) and sub.exact(sg * s * s)  # noqa
         return Case('rscale[' + sub.label + ']', sub.skey, lambda sg: f.proximal(sg), fe, tree,
                     indicator=sub.indicator, restricted=sub.restricted, exact=ex,
-                    has_box=sub.has_box, leaves=sub.leaves + ('rscale',), fobj=f)
+                    has_box=sub.has_box, list_sigma=sub.list_sigma, elem_sigma=sub.elem_sigma,
+                    leaves=sub.leaves + ('rscale',), fobj=f)
     if kind == 'rscale0':
         # FunctionalRightScalarMult(f, 0) built directly (f * 0 is folded into a constant by
         # Functional.__mul__): proximal_arg_scaling's `scaling == 0` guard -> identity
@@ -468,22 +477,26 @@ def build(spec):
                     exact=lambda sg: True, leaves=sub.leaves + ('rscale0',), fobj=f)
     if kind == 'lscale':
         s, sub = spec[1], build(spec[2])
+        styp = spec[3] if len(spec) > 3 else 'float'
+        s = {'int': int, 'float': float, 'np': np.float64}[styp](s)
         f = s * sub.fobj
         tree = None if sub.tree is None else ['lscale', fs(float(s))] + sub.tree
         fe = (lambda z: s * sub.feval(z)) if sub.has_box else fn(f)
         ex = None
         if sub.exact is not None and s > 0 and pow2(s):
             ex = lambda sg: np.isscalar(sg) and sub.exact(sg * s)  # noqa
-        return Case('lscale[' + sub.label + ']', sub.skey, lambda sg: f.proximal(sg), fe, tree,
+        return Case('lscale' + ('' if styp == 'float' else '(' + styp + ')') + '[' + sub.label + ']', sub.skey, lambda sg: f.proximal(sg), fe, tree,
                     indicator=sub.indicator, vec_sigma=False, restricted=sub.restricted, exact=ex,
-                    has_box=sub.has_box, leaves=sub.leaves + ('lscale',), fobj=f)
+                    has_box=sub.has_box, list_sigma=sub.list_sigma, elem_sigma=sub.elem_sigma,
+                    leaves=sub.leaves + ('lscale',), fobj=f)
     if kind == 'ssum':
         c, sub = spec[1], build(spec[2])
         f = sub.fobj + c
         fe = (lambda z: sub.feval(z) + c) if sub.has_box else fn(f)
         return Case('ssum[' + sub.label + ']', sub.skey, lambda sg: f.proximal(sg), fe, sub.tree,
                     indicator=sub.indicator, restricted=sub.restricted, exact=sub.exact,
-                    has_box=sub.has_box, leaves=sub.leaves + ('ssum',), fobj=f)
+                    has_box=sub.has_box, list_sigma=sub.list_sigma, elem_sigma=sub.elem_sigma,
+                    leaves=sub.leaves + ('ssum',), fobj=f)
     if kind == 'quad':
         a, u, c, sub = spec[1], spec[2], spec[3], build(spec[4])
         f = FunctionalQuadraticPerturb(sub.fobj, quadratic_coeff=a,
@@ -538,6 +551,7 @@ def build(spec):
         return Case('sep[' + ','.join(c.label for c in subs) + ']', skey,
                     lambda sg: f.proximal(sg), fn(f), tree,
                     indicator=all(c.indicator for c in subs), list_sigma=len(subs),
+                    elem_sigma=all(c.vec_sigma and not c.list_sigma for c in subs),
                     restricted=any(c.restricted or c.indicator for c in subs),
                     leaves=tuple(l for c in subs for l in c.leaves) + ('sep',), fobj=f)
     raise KeyError(kind)
@@ -627,6 +641,19 @@ def leaf_specs(rng, quick):
                         ['Huber', k, 0.5], ['L2Norm', k], ['IndicatorSimplex', k, 2],
                         ['trans', dvec(rng, fsize(zoo()[k]), -8, 8), ['L1Norm', k]]):
                 out.append(['comp', mat, mu, sub])
+    # every calculus rule over a separable sum, to be run with per-summand step sequences
+    for ka, kb in (('rn3', 'rn2'), ('rn3_warr', 'discr4_cell0.25'), ('rn2', 'rn4_wconst2')):
+        na, nb = fsize(zoo()[ka]), fsize(zoo()[kb])
+        sepb = ['sep', [['L1Norm', ka], ['L2Norm', kb]]]
+        sepe = ['sep', [['L1Norm', ka], ['L2NormSquared', kb]]]
+        y = dvec(rng, na + nb, -16, 16)
+        out += [['lscale', 2, sepb, 'int'], ['lscale', 3, sepe, 'int'], ['lscale', 2.0, sepb, 'float'],
+                ['lscale', 0.5, sepe, 'float'], ['lscale', 4.0, sepb, 'np'], ['lscale', 0.25, sepe, 'np'],
+                ['rscale', 2.0, sepb], ['rscale', -0.5, sepe], ['rscale', 1.5, sepb],
+                ['trans', y, sepb], ['trans', y, sepe], ['ssum', 1.5, sepb],
+                ['lscale', 2, ['trans', y, ['rscale', -2.0, sepb]], 'int'],
+                ['trans', y, ['lscale', 0.5, ['rscale', 2.0, sepe], 'np']],
+                ['rscale', 0.5, ['lscale', 3, ['trans', y, sepe], 'int']]]
     for k in product_keys:
         n = fsize(zoo()[k])
         out += [['L1Norm', k], ['L2Norm', k], ['L2NormSquared', k],
@@ -706,7 +733,7 @@ FINITE_LEAVES = ('L1Norm', 'L2Norm', 'L2NormSquared', 'LpNorm', 'Huber', 'ZeroFu
 def leaf_of(spec):
     while spec[0] in ('trans', 'rscale', 'rscale0', 'lscale', 'ssum', 'quad', 'bregman', 'dconj',
                       'comp'):
-        spec = spec[-1]
+        spec = spec[2] if spec[0] == 'lscale' else spec[-1]
     return spec
 
 
@@ -911,16 +938,27 @@ def nearly_feasible(feval, p, pool, S, x=None):
     return None
 
 
-def sigma_obj(case, sg):
-    """The step as passed to the real code."""
+STEP_FORMS = ('list', 'tuple', 'array', 'elements')
+
+
+def sigma_obj(case, sg, sk=None):
+    """The step as passed to the real code.  For functionals on a separable-sum domain `sk`
+    names the documented form of the per-summand steps: a list / tuple / numpy array of floats,
+    or a list of point-wise step elements (one per summand)."""
     if np.isscalar(sg):
         return sg
     if case.list_sigma:
+        if sk == 'tuple':
+            return tuple(sg)
+        if sk == 'array':
+            return np.array(sg, dtype=float)
+        if sk == 'elements':
+            return [unflat(sub, v) for v, sub in zip(sg, case.space)]
         return list(sg)
     return unflat(case.space, sg)
 
 
-def check_case(case, sg, xlist, rng, deep=0):
+def check_case(case, sg, xlist, rng, deep=0, sk=None):
     """Run the oracle on one (functional, step, point). Returns (problems, info) where
     problems = [(check, text)], info has the proximal point and whether the case is trivial."""
     S = case.space
@@ -929,7 +967,7 @@ def check_case(case, sg, xlist, rng, deep=0):
     x = unflat(S, xlist)
     x0 = flat(x).copy()
     try:
-        P = case.factory(sigma_obj(case, sg))
+        P = case.factory(sigma_obj(case, sg, sk))
         p = P(x)
     except Exception as e:  # noqa
         info['status'] = 'err:' + type(e).__name__
@@ -958,6 +996,8 @@ def check_case(case, sg, xlist, rng, deep=0):
     # the step as an element for the quadratic term
     if np.isscalar(sg):
         sg_q = float(sg)
+    elif case.list_sigma and sk == 'elements':
+        sg_q = S.element([unflat(sub, v) for v, sub in zip(sg, S)])
     elif case.list_sigma:
         sg_q = S.element([s * sub.one() for s, sub in zip(sg, S)])
     else:
@@ -1078,7 +1118,13 @@ def sigma_choices(case, rng, exact):
     if case.vec_sigma:
         out.append(('pointwise', pvec(rng, n, True) if rng.random() < 0.6 else pvec(rng, n, False)))
     if case.list_sigma:
-        out.append(('list', pvec(rng, case.list_sigma, True)))
+        # every documented form of per-summand steps
+        forms = ['list', 'tuple', 'array']
+        rng.shuffle(forms)
+        for fm in forms:
+            out.append((fm, pvec(rng, case.list_sigma, True)))
+        if case.elem_sigma:
+            out.append(('elements', [pvec(rng, fsize(sub), True) for sub in case.space]))
     return out
 
 
@@ -1090,7 +1136,8 @@ def x_choices(case, rng, sg, exact):
     out.append(('far', [8.0 * t for t in v()]))
     out.append(('small', [t / 16 for t in v()]))
     # a kink / boundary point: |x_i| = sigma exactly (thresholds, box corners)
-    s0 = float(np.atleast_1d(sg)[0])
+    s0 = float(np.asarray(sg[0] if (not np.isscalar(sg) and sg and isinstance(sg[0], list)) else sg,
+                          dtype=float).ravel()[0])
     out.append(('kink', [rng.choice([s0, -s0, 1.0, 0.0, 1.0 + s0]) for _ in range(n)]))
     return out
 
@@ -1105,6 +1152,8 @@ def model_line(case, sg, xlist):
     eps = float(np.finfo(float).resolution * 10)
     if np.isscalar(sg):
         sk, sv = 's', fs(float(sg))
+    elif sg and isinstance(sg[0], (list, tuple)):
+        return None     # per-summand point-wise elements: outside the model, oracle only
     else:
         sk, sv = 'v', fl([float(s) for s in sg])
     return 'prox f={} w={} sk={} sig={} eps={} x={}'.format(
@@ -1260,7 +1309,11 @@ def iterate_cases(ctx, specs, deep=False, per_spec_sigmas=None):
             sigs = sigs[:per_spec_sigmas]
         if ctx.quick and not deep:
             # one float step (dyadic or general) plus the point-wise / per-summand kinds
-            sigs = [sigs[rng.randrange(2)]] + sigs[2:]
+            rest = sigs[2:]
+            if case.list_sigma:
+                # one of list / tuple / array per case (rotating), plus the element form
+                rest = [rest[0]] + [t for t in rest if t[0] == 'elements']
+            sigs = [sigs[rng.randrange(2)]] + rest
         for sk, sg in sigs:
             xs = x_choices(case, rng, sg, exact_space)
             if ctx.quick and not deep:
@@ -1282,7 +1335,7 @@ def run(ctx, deep=False):
     for case, sk, sg, xc, xlist in iterate_cases(ctx, specs, deep=deep):
         crng = _random.Random(rng.getrandbits(32))
         lvl = 2 if deep else (0 if (ctx.quick and case.tree is not None) else 1)
-        probs, info = check_case(case, sg, xlist, crng, deep=lvl)
+        probs, info = check_case(case, sg, xlist, crng, deep=lvl, sk=sk)
         rec = (case, sk, sg, xc, xlist, info, probs)
         seen_labels.add(case.label)
         sig = (case.label, case.skey, sk, xc) if info['nontrivial'] else None
@@ -1294,6 +1347,12 @@ def run(ctx, deep=False):
             ctx.hit('functional/' + lf)
         ctx.hit('space/' + (case.skey if not case.skey.startswith('sep(') else 'separable-sum'))
         ctx.hit('sigma/' + sk)
+        if case.list_sigma and sk in STEP_FORMS:
+            for lf in case.leaves:
+                if lf in ('trans', 'rscale', 'lscale', 'ssum', 'sep'):
+                    ctx.hit('steps/{}/{}'.format(sk, lf))
+            if case.label.startswith('lscale('):
+                ctx.hit('steps/{}/lscale-{}'.format(sk, case.label[7:case.label.index(')')]))
         if info['status'] != 'ok':
             ctx.err(info['status'])
         for check, text in probs:
@@ -1347,7 +1406,8 @@ def malformed_specs(rng):
                 # a point-wise step for proximals that take a float only
                 (['Huber', k, 0.5], 'pointwise'), (['L2Norm', k], 'pointwise'),
                 (['KullbackLeiblerConvexConj', k, None], 'pointwise'),
-                (['trans', dvec(rng, n), ['L1Norm', k]], 'pointwise')]
+                (['trans', dvec(rng, n), ['L1Norm', k]], 'pointwise'),
+                (['quad', 1.5, None, 0, ['sep', [['L1Norm', k], ['L2Norm', k]]]], 'list')]
     return out
 
 
@@ -1362,10 +1422,11 @@ def run_malformed(ctx):
             continue
         case.spec = spec
         n = fsize(case.space)
-        sg = rng.choice([0.5, 1.0, 2.0]) if sk == 'float' else pvec(rng, n, True)
+        sg = rng.choice([0.5, 1.0, 2.0]) if sk == 'float' else \
+            (pvec(rng, 2, True) if sk == 'list' else pvec(rng, n, True))
         xlist = dvec(rng, n)
         try:
-            p = case.factory(sigma_obj(case, sg))(unflat(case.space, xlist))
+            p = case.factory(sigma_obj(case, sg, sk))(unflat(case.space, xlist))
             status, pf = 'ok', flat(p)
         except Exception as e:  # noqa
             status, pf = 'err:' + type(e).__name__, None
@@ -1406,7 +1467,7 @@ def search(ctx, broken):
                  and 'spec' in d['case']][:50]
         for case, sk, sg, xc, xlist in iterate_cases(ctx, first + specs, deep=True):
             crng = _random.Random(rng.getrandbits(32))
-            probs, info = check_case(case, sg, xlist, crng, deep=2)
+            probs, info = check_case(case, sg, xlist, crng, deep=2, sk=sk)
             ctx.evaluations += 1
             for check, text in probs:
                 report(ctx, vkey(case, sk, check), text,
@@ -1430,7 +1491,8 @@ def replay(ctx, case):
         return None
     sg = case['sigma']
     for attempt in range(2):
-        probs, info = check_case(c, sg, case['x'], _random.Random(attempt), deep=2)
+        probs, info = check_case(c, sg, case['x'], _random.Random(attempt), deep=2,
+                                 sk=case.get('sigma_kind'))
         if not probs:
             return None
     return '; '.join('{}: {}'.format(a, b) for a, b in probs)
